@@ -169,6 +169,21 @@ def add_late_settings(L):
   if r2.random() < 0.25 and not (cls == 'CDevice2' and not L.get('cbounds')):
     L['rebound'] = True
     L['warm'] = r2.random() < 0.6
+  # slots that are narrow RELATIVE to their magnitude (width 1/16 at 8192: 7.6e-6 relative): positive-width slots all the same; a
+  # relative-tolerance comparison (np.isclose) mistakes them for zero-width ones
+  if cls in ('Device', 'CDevice', 'IDevice', 'IDevice2', 'PVDevice', 'GDevice') and not L.get('cbounds') and r2.random() < 0.12:
+    nb = []
+    for lo, hi in L['bounds']:
+      if lo != hi and r2.random() < 0.7:
+        (lo, hi) = (F(8192) + lo, F(8192) + lo + F(1, 16)) if hi > 0 else (-(F(8192) - hi + F(1, 16)), -(F(8192) - hi))
+      nb.append((lo, hi))
+    L['bounds'] = nb
+  if cls == 'TDevice' and r2.random() < 0.1:
+    L['t_optimal'], L['t_range'] = F(256), F(1, 512)      # a comfort band that is narrow relative to the temperature scale
+  if r2.random() < 0.25:
+    L['twice'] = True         # a decoy device is constructed first FROM THE SAME ARGUMENT OBJECTS (constructors must not modify them)
+  if r2.random() < 0.5:
+    L['nd'] = True            # sequence-valued arguments (external temperatures, coefficients) as float ndarrays instead of lists
   if L.get('cbounds') and r2.random() < 0.2:
     L['recb'] = True          # built without (CDevice2: with the default) cumulative bounds, used once, then `cbounds` assigned
 
@@ -362,37 +377,46 @@ def build(L):
   bounds = np.array(fl([list(b) for b in L['bounds']]))
   cb = py_cbounds(L['cbounds'], L.get('cb_kind'))
   i = L.get('id', 'd')
+
+  def call(ctor, *a, **kw):
+    if L.get('twice'):
+      ctor(*a, **kw)        # decoy built from the same argument objects
+    return ctor(*a, **kw)
+
+  def seq(v):
+    v = fl(v)
+    return np.array(v, dtype=float) if L.get('nd') else v
   if cls == 'Device':
-    return dk.Device(i, n, bounds, cb)
+    return call(dk.Device, i, n, bounds, cb)
   if cls == 'PVDevice':
-    return dk.PVDevice(i, n, bounds, cb)
+    return call(dk.PVDevice, i, n, bounds, cb)
   omit = L.get('omit') or []
 
   def kwargs(**kw):
     return {k: v for k, v in kw.items() if k not in omit}
   if cls == 'CDevice':
-    return dk.CDevice(i, n, bounds, cb, **kwargs(a=float(L['a']), b=float(L['b'])))
+    return call(dk.CDevice, i, n, bounds, cb, **kwargs(a=float(L['a']), b=float(L['b'])))
   if cls == 'CDevice2':
-    return dk.CDevice2(i, n, bounds, cb, **kwargs(p_l=float(L['p_l']), p_h=float(L['p_h'])))
+    return call(dk.CDevice2, i, n, bounds, cb, **kwargs(p_l=float(L['p_l']), p_h=float(L['p_h'])))
   if cls == 'IDevice':
-    return dk.IDevice(i, n, bounds, cb, **kwargs(a=py_param(L['a']), b=py_param(L['b']), c=py_param(L['c'])))
+    return call(dk.IDevice, i, n, bounds, cb, **kwargs(a=py_param(L['a']), b=py_param(L['b']), c=py_param(L['c'])))
   if cls == 'IDevice2':
-    return dk.IDevice2(i, n, bounds, cb, **kwargs(p_l=py_param(L['p_l']), p_h=py_param(L['p_h'])))
+    return call(dk.IDevice2, i, n, bounds, cb, **kwargs(p_l=py_param(L['p_l']), p_h=py_param(L['p_h'])))
   if cls == 'GDevice':
-    return dk.GDevice(i, n, bounds, cb, cost_coeffs=fl(L['cost_coeffs']))
+    return call(dk.GDevice, i, n, bounds, cb, cost_coeffs=seq(L['cost_coeffs']))
   if cls == 'SDevice':
     rc = L['rate_clip']
     kw = {k: float(L[k]) for k in ('c1', 'c2', 'c3', 'capacity', 'damage_depth', 'start', 'reserve', 'efficiency', 'sustainment')}
     if rc is not None:
       kw['rate_clip'] = tuple(None if v is None else float(v) for v in rc)
     post = {k: kw.pop(k) for k in (L.get('post_set') or [])}
-    d = dk.SDevice(i, n, bounds, cb, **kw)
+    d = call(dk.SDevice, i, n, bounds, cb, **kw)
     for k, v in post.items():
       setattr(d, k, v)
     return d
   if cls == 'TDevice':
-    return dk.TDevice(i, n, bounds, float(L['sustainment']), float(L['efficiency']), float(L['t_init']), float(L['t_optimal']),
-                      float(L['t_range']), fl(L['t_external']), c=py_param(L['c']), cbounds=cb)
+    return call(dk.TDevice, i, n, bounds, float(L['sustainment']), float(L['efficiency']), float(L['t_init']), float(L['t_optimal']),
+                float(L['t_range']), seq(L['t_external']), c=py_param(L['c']), cbounds=cb)
   if cls == 'ADevice':
     cons = []
     for u in L['ucons']:
@@ -401,7 +425,7 @@ def build(L):
       if u['jac']:
         c['jac'] = lambda s, w=w: w.copy()
       cons.append(c)
-    return dk.ADevice(i, n, bounds, cb, f=build_fn(L['f']), constraints=cons)
+    return call(dk.ADevice, i, n, bounds, cb, f=build_fn(L['f']), constraints=cons)
   raise AssertionError(cls)
 
 
@@ -512,7 +536,7 @@ def leaf_from_json(J):
   if L.get('cbounds') is not None:
     L['cbounds'] = [(F(a), F(b), int(s), int(e)) for a, b, s, e in L['cbounds']]
   for k, v in list(L.items()):
-    if k in ('n', 'cls', 'id', 'cb_kind', 'bounds', 'cbounds', 'f', 'ucons', 'rate_clip', 'post_set', 'rebound', 'warm', 'omit', 'recb'):
+    if k in ('n', 'cls', 'id', 'cb_kind', 'bounds', 'cbounds', 'f', 'ucons', 'rate_clip', 'post_set', 'rebound', 'warm', 'omit', 'recb', 'twice', 'nd'):
       continue
     if isinstance(v, int) and not isinstance(v, bool):
       L[k] = F(v)
